@@ -33,6 +33,8 @@ func checkC16(c *Ctx) {
 	c.guard(p, "C16.verifyguard", "identity tweaked key rejected", p.Func("oprf", "PartialObliviousClient", "pointFromInfo"), GuardSpec{Assumes: []Assume{calleeAssume(latTrue, -1, "invoke (group.Element).IsIdentity")}})
 	c.guard(p, "C16.verifyguard", "zero tweaked secret rejected", p.Func("oprf", "server", "secretFromInfo"), GuardSpec{Assumes: []Assume{calleeAssume(latTrue, -1, "invoke (group.Scalar).IsEqual")}})
 	c.guardEachSite(p, "C16.verifyguard", "input hashing to the identity rejected", p.Func("oprf", "client", "blind"), -1, latTrue, "invoke (group.Element).IsIdentity")
+	// a zero blind cannot be inverted at finalisation, and the element it produces is the identity
+	c.guardEachSite(p, "C16.verifyguard", "a zero blind is refused", p.Func("oprf", "client", "blind"), -1, latTrue, "invoke (group.Scalar).IsZero")
 	// validate: mismatching lengths are an error
 	val := p.Func("oprf", "client", "validate")
 	c.evalAcceptRuleBin(p, "C16.verifyguard", "length mismatch between blinds, request and evaluation is an error", val)
